@@ -3,7 +3,7 @@
     recovery of usable states, permanence of torn stores, clean restart. *)
 From Coq Require Import String Ascii List Bool ZArith Arith Lia.
 From Raven Require Import Base.GoStr Model.Store Model.Ops Model.Micro Spec.UidSpec Spec.Crash
-  Proof.StoreInv Proof.MicroRefine Proof.MicroBase Proof.MicroWF.
+  Proof.StoreInv Proof.MicroRefine Proof.MicroBase Proof.MicroWF Proof.MicroInbox.
 Import ListNotations.
 Local Open Scope Z_scope.
 
@@ -13,9 +13,11 @@ Definition op_plain (o : cop) : bool := match o with CBase o' => rename_plain o'
 
 Lemma refines d o : WF d -> op_plain o = true -> run_steps d (micro d o) = fst (big d o).
 Proof.
-  intros W P. destruct o as [t1 t2 t3 t4 t5|f t sh t1 t2 t3 t4 t5|f fl sh|o|n|n].
+  intros W P. destruct o as [t1 t2 t3 t4 t5|f t sh|f fl sh|o|n|n].
   - apply open_refines.
-  - apply deliver_refines. apply wf_below. now apply opened_WF.
+  - destruct (ready d) eqn:Hr.
+    + apply deliver_refines; auto. now apply wf_below.
+    + cbn [micro big]. rewrite Hr. reflexivity.
   - destruct (ready d) eqn:Hr.
     + apply append_refines; auto. now apply wf_below.
     + cbn [micro big]. rewrite Hr. reflexivity.
@@ -82,19 +84,23 @@ Proof.
       * right. exists (o :: h1), o', h2, j. subst r. repeat split; auto.
 Qed.
 
-(** ---- recovery of usable states -------------------------------------------------- *)
+(** ---- recovery ------------------------------------------------------------------------ *)
 
-Lemma usable_reopens c t1 t2 t3 t4 t5 :
-  usable c = true ->
-  snd (big c (COpen t1 t2 t3 t4 t5)) = ROk /\
-  ready (fst (big c (COpen t1 t2 t3 t4 t5))) = true /\
-  has_inbox (fst (big c (COpen t1 t2 t3 t4 t5))) = true /\
-  d_file (fst (big c (COpen t1 t2 t3 t4 t5))) = true.
+Lemma HasI_has_inbox d : HasI d -> has_inbox d = true.
 Proof.
-  intros U. cbn [big fst snd]. unfold opened. unfold usable in U.
-  destruct (d_file c) eqn:F; cbn [negb orb] in U.
-  - apply andb_true_iff in U. destruct U. repeat split; auto.
-  - repeat split; reflexivity.
+  unfold HasI, names, has_inbox, find_name. intros H. apply in_map_iff in H. destruct H as (m & En & Hm).
+  destruct (find (fun m0 => str_eqb (mb_name m0) INBOX) (mboxes (d_st d))) eqn:F; [reflexivity|].
+  exfalso. pose proof (find_none _ _ F m Hm) as X. cbv beta in X. rewrite En, str_eqb_refl in X. discriminate.
+Qed.
+
+(** at every crash point of every workload the next GetUserDB answers OK and
+    leaves a store with its file, all tables and an INBOX *)
+Lemma every_crash_state_reopens h k t1 t2 t3 t4 t5 :
+  snd (big (crash_at absent h k) (COpen t1 t2 t3 t4 t5)) = ROk /\
+  usable (fst (big (crash_at absent h k) (COpen t1 t2 t3 t4 t5))) = true.
+Proof.
+  destruct (crash_reopens h k t1 t2 t3 t4 t5) as (A & B & C & D). split; [exact A|].
+  unfold usable. rewrite D, B, (HasI_has_inbox _ C). reflexivity.
 Qed.
 
 Lemma inv_add_ok s m : Inv s -> In m (mboxes s) -> add_ok s (mb_id m) = true.
@@ -106,21 +112,19 @@ Qed.
 
 (** a delivery into an existing mailbox of a ready store whose uid_next is
     not stale is accepted, adds exactly one link, and everything listed is complete *)
-Lemma ready_deliver_ok d f t sh t1 t2 t3 t4 t5 m :
-  WF d -> d_file d = true -> ready d = true ->
+Lemma ready_deliver_ok d f t sh m :
+  WF d -> ready d = true ->
   find_name (d_st d) f = Some m -> add_ok (d_st d) (mb_id m) = true ->
-  let dr := big d (CDeliver f t sh t1 t2 t3 t4 t5) in
+  let dr := big d (CDeliver f t sh) in
   snd dr = ROk /\ links_complete (fst dr) /\
   length (links (d_st (fst dr))) = S (length (links (d_st d))).
 Proof.
-  intros W F R Fn Ok.
-  pose proof (deliver_refines d f t sh t1 t2 t3 t4 t5) as Ref.
-  assert (Eo : opened d t1 t2 t3 t4 t5 = d) by (unfold opened; now rewrite F).
-  rewrite Eo in Ref. specialize (Ref (wf_below d W)).
-  assert (Wr : WF (fst (big d (CDeliver f t sh t1 t2 t3 t4 t5)))).
+  intros W R Fn Ok.
+  pose proof (deliver_refines d f t sh (wf_below d W) R) as Ref.
+  assert (Wr : WF (fst (big d (CDeliver f t sh)))).
   { rewrite <- Ref. apply run_WF; auto. now apply micro_guards. }
   split; [|split; [now apply wf_complete|]]; clear Ref Wr;
-    cbn [big]; rewrite Eo, R; unfold op_deliver; rewrite Fn; unfold store_message, add_message;
+    cbn [big]; rewrite R; unfold op_deliver; rewrite Fn; unfold store_message, add_message;
     unfold add_ok in Ok; cbn [find_id mboxes] in *;
     change (find_id (mkStore (mboxes (d_st d)) (links (d_st d)) (next_msg (d_st d) + 1) (glog (d_st d))
               (gused (d_st d)) (gser (d_st d))) (mb_id m)) with (find_id (d_st d) (mb_id m));
@@ -130,32 +134,30 @@ Proof.
   - rewrite app_length. cbn. lia.
 Qed.
 
-(** ---- torn stores stay torn ------------------------------------------------------ *)
-
-Lemma torn_micro c o : d_file c = true -> ready c = false -> micro c o = [].
-Proof.
-  intros F R. destruct o; cbn [micro]; unfold open_steps; rewrite ?F, ?R; try reflexivity.
-  cbn [run_steps fold_left app]. unfold run_steps. cbn [fold_left]. now rewrite R.
-Qed.
-
-(** no later operation — login, delivery, anything — changes a store whose
-    file exists without the essential tables: initUserDB is never run again *)
-Lemma torn_forever h : forall c, d_file c = true -> ready c = false -> run_all c h = c.
-Proof.
-  induction h as [|o r IH]; intros c F R; [reflexivity|].
-  cbn [run_all fold_left]. rewrite torn_micro by auto. now apply IH.
-Qed.
-
-Lemma torn_rejects c f t sh t1 t2 t3 t4 t5 :
-  d_file c = true -> ready c = false -> snd (big c (CDeliver f t sh t1 t2 t3 t4 t5)) = RNo.
-Proof. intros F R. cbn [big]. unfold opened. rewrite F, R. reflexivity. Qed.
-
 (** ---- clean restart ------------------------------------------------------------------ *)
 
-(** reopening an existing store changes nothing *)
+(** reopening a complete store changes nothing (the 26 schema statements are
+    no-ops, the default mailboxes are not touched) *)
 Lemma reopen_id d t1 t2 t3 t4 t5 :
-  d_file d = true -> big d (COpen t1 t2 t3 t4 t5) = (d, ROk) /\ micro d (COpen t1 t2 t3 t4 t5) = [].
-Proof. intros F. cbn [big micro]. unfold opened, open_steps. now rewrite F. Qed.
+  d_file d = true -> d_schema d = NSCHEMA -> mboxes (d_st d) <> [] ->
+  big d (COpen t1 t2 t3 t4 t5) = (d, ROk) /\ run_steps d (micro d (COpen t1 t2 t3 t4 t5)) = d.
+Proof.
+  intros F S M. cbn [micro]. rewrite open_refines. cbn [big].
+  assert (E : opened d t1 t2 t3 t4 t5 = d).
+  { unfold opened, file_of. rewrite F. destruct (mboxes (d_st d)) eqn:Mb; [contradiction|].
+    rewrite S. destruct d; cbn in *; subst; reflexivity. }
+  now rewrite E.
+Qed.
+
+(** ---- regression: the code before fixes/store-init-idempotent.patch ----------------- *)
+
+(** GetUserDB as it was: nothing when the file exists; otherwise create file,
+    schema, five separate INSERTs *)
+Definition old_open_steps (d : dstore) (t : Z) : list mstep :=
+  if d_file d then []
+  else MCreateFile :: map MSchema (seq 0 NSCHEMA)
+       ++ [MInsMailbox INBOX t; MInsMailbox (S_ "Sent") t; MInsMailbox (S_ "Drafts") t;
+           MInsMailbox (S_ "Trash") t; MInsMailbox SPAM t].
 
 (** ---- the UID gap ---------------------------------------------------------------------- *)
 
@@ -172,56 +174,19 @@ Proof.
   - rewrite bump_row_next. apply find_id_some in F. destruct F as [_ ->]. now rewrite Z.eqb_refl.
 Qed.
 
-(** ---- classes ---------------------------------------------------------------------------- *)
-
-Lemma classify_none_usable c : classify_state c = None <-> usable c = true.
-Proof.
-  unfold classify_state, usable. destruct (d_file c), (ready c), (has_inbox c); cbn; split; congruence.
-Qed.
-
-Lemma outside_classes_usable h k : classify h k = None -> usable (crash_at absent h k) = true.
-Proof. intros H. now apply classify_none_usable. Qed.
+(** ---- witnesses ------------------------------------------------------------------------ *)
 
 Lemma crash_links_complete h k : WF (crash_at absent h k).
 Proof. apply crash_WF, WF_absent. Qed.
 
-(** witnesses: first contact of a new user, the process dies during store creation *)
 Definition W_OPEN : list cop := [COpen 100 100 100 100 100].
 Definition W_SHAPE : shape := mkShape 3 2 [false].
-
-(** crash after "create file" + 3 CREATE TABLE statements: the store is torn
-    for ever: every later workload leaves it as it is, every delivery is rejected *)
-Lemma refuted_torn_schema :
-  exists h k, classify h k = Some CTornSchema /\
-    (forall h', run_all (crash_at absent h k) h' = crash_at absent h k) /\
-    (forall f t sh t1 t2 t3 t4 t5,
-        snd (big (crash_at absent h k) (CDeliver f t sh t1 t2 t3 t4 t5)) = RNo) /\
-    recovers_b (crash_at absent h k) 200 W_SHAPE = false.
-Proof.
-  exists W_OPEN, 4%nat. split; [vm_compute; reflexivity|]. split; [|split].
-  - intros h'. apply torn_forever; vm_compute; reflexivity.
-  - intros. apply torn_rejects; vm_compute; reflexivity.
-  - vm_compute. reflexivity.
-Qed.
-
-(** crash after the 26 schema statements and before INSERT INBOX: the next
-    login opens the file as it is — no INBOX *)
-Lemma refuted_no_inbox :
-  exists h k, classify h k = Some CNoInbox /\
-    (forall t1 t2 t3 t4 t5,
-        has_inbox (fst (big (crash_at absent h k) (COpen t1 t2 t3 t4 t5))) = false) /\
-    recovers_b (crash_at absent h k) 200 W_SHAPE = false.
-Proof.
-  exists W_OPEN, 27%nat. split; [vm_compute; reflexivity|]. split.
-  - intros. vm_compute. reflexivity.
-  - vm_compute. reflexivity.
-Qed.
 
 (** non-vacuity: a workload with every kind of operation; all its crash points
     outside store creation are usable and recover *)
 Definition W_MIXED : list cop :=
   [COpen 100 100 100 100 100;
-   CDeliver INBOX 100 W_SHAPE 100 100 100 100 100;
+   CDeliver INBOX 100 W_SHAPE;
    CAppend INBOX [S_ "\Seen"] (mkShape 6 3 [false; false; true]);
    CBase (OUidCopy 1 [URange 1 2] (S_ "Trash"));
    CBase (OUidStore 1 [URange 1 2] SAdd [S_ "\Deleted"]);
